@@ -152,6 +152,10 @@ def r1(F, rep):
             for tgt in sorted(set(ep) | set(eb)):
                 n += 1
                 a, b = ep.get(tgt), eb.get(tgt)
+                if tgt.startswith("local:") and (a is None or b is None):
+                    # a helper local of one branch only: it is looked through where it is used
+                    n -= 1
+                    continue
                 ok = a is not None and b is not None and a == b
                 rep.add("C02-R1", "%s|%s|%d" % (f.q, tgt, node.get("l", 0) - f.line), f.loc(node),
                         "%s, target `%s`: plain `%s` ; minimum-image `%s`" % (f.q, tgt, a, b), ok,
